@@ -171,8 +171,9 @@ impl Property for C08 {
     }
     fn strategy(&self, tier: Tier) -> BoxedStrategy<Case> {
         let maxd = tier.pick(4u32, 5u32);
-        (sized(3, 5), sized(2, 3))
+        (sized_wide(3, 5), sized(2, 3))
             .prop_flat_map(move |(n, p)| {
+                let maxd = if n >= 8 { 3 } else { maxd };
                 let params = (1..=maxd, prop_oneof![2 => Just(100u32), 1 => Just(85u32)]).prop_map(move |(d, present_pct)| TreeParams {
                     k: 2,
                     in_dim: n,
